@@ -238,6 +238,8 @@ class Walker:
             base = e[1] if k == "sub" else e[2]
             t = self._elem_class(base, st)
             return t
+        if k == "call" and e[1] == ("g", "next") and e[2] and e[2][0][0] == "comp":
+            return self.typeof(e[2][0][2], st)  # next(<generator>, default): an element of the generator (or the default)
         if k == "f":
             owner = self.typeof(e[1], st)
             if owner is not None:
@@ -884,6 +886,12 @@ class Walker:
                 nonnull = True  # an element of a collection that only ever receives constructed objects
             if not nonnull and x[0] == "hv":
                 nonnull = self._hv_nonnull(x, st)
+            if not nonnull and x[0] == "p" and st.stack:
+                # a parameter annotated with a plain scalar type is not None (typing contract of the analysed entry point)
+                fa = st.stack[0].func.node.args
+                for a_ in fa.posonlyargs + fa.args + fa.kwonlyargs:
+                    if a_.arg == x[1] and isinstance(a_.annotation, ast.Name) and a_.annotation.id in ("int", "float", "str", "bool", "bytes"):
+                        nonnull = True
             if nonnull or (is_const(x) and x[1] is not None):
                 return C(v[1] == "isnot")
         return v
